@@ -41,6 +41,50 @@ def handle (op : String) (args : List String) : Option String :=
     some (showRes showArr (a.swapaxes 0 i j))
   | _, _ => none
 
+/-! ### huge arrays and back-to-back pairs (robustness streams, part 2)
+
+The model's `transpose` is a quadratic scatter on lists (2.2 s for 130x130, minutes for 140 000 elements).  For arrays above
+`fullLimit` elements the driver answers the PLAN of the call instead of the element list: the axis order the model's own
+`transpose` / `moveaxis` / `rollaxis` / `swapaxes` applies, read off the model's answer on the stand-in tag array of the same rank
+with every axis of length 2 (which axes are legal and where they go depends on the rank only), and the permuted shape.  The
+harness gathers the elements by that order with its native reference, which it validates against the full model answer on every
+smaller case of the same run. -/
+
+def fullLimit : Nat := 4000
+
+/-- shape of an array spelling, without building the elements -/
+def shapeOf? (s : String) : Option (List Nat) :=
+  if s.startsWith "i" then parseNatList? (((s.drop 1).toString.splitOn "+").headD "")
+  else match s.splitOn ":" with
+    | [sh, _] => parseNatList? sh
+    | _ => none
+
+def planOf (shape : List Nat) (s : String) : Option String := do
+  let nd := shape.length
+  let standin : Arr Int := ⟨(List.range (2 ^ nd)).map Int.ofNat, List.replicate nd 2⟩
+  match ← step standin s with
+  | .ok b =>
+    let order := (List.range nd).map (fun k => nd - 1 - Nat.log2 (b.elems.getD (2 ^ (nd - 1 - k)) 0).toNat)
+    some ("plan " ++ showNatList (order.map (fun o => shape.getD o 0)) ++ "|" ++ showNatList order)
+  | .err e => some ("err " ++ e.name)
+  | .panic => some "panic"
+
+/-- the answer for one array: the full model answer up to `fullLimit` elements, the plan above -/
+def member (a : String) (s : String) : Option String := do
+  let shape ← shapeOf? a
+  if shape.prod ≤ fullLimit then
+    let a ← parseArr? a
+    let r ← step a s
+    some (showRes showArr r)
+  else planOf shape s
+
+def handleX (op : String) (args : List String) : Option String :=
+  match op, args with
+  | "huge", [a, s] => do let shape ← shapeOf? a; planOf shape s
+  | "pair", [a, b, s] => do let x ← member a s; let y ← member b s; some (x ++ " ; " ++ y)
+  | "audit", [] => some "ok audit"
+  | _, _ => handle op args
+
 end Driver.C06
 
-def main : IO Unit := Driver.runDriver Driver.C06.handle
+def main : IO Unit := Driver.runDriver Driver.C06.handleX
